@@ -344,6 +344,7 @@ def check(ctx):
     rng = ctx.rng
     thorough = ctx.thorough
     phases = {}
+    ctx.extra_cov["phase_seconds"] = phases
     t0 = time.time()
     cases = []          # dict(label, tree, params, argvs, kind)
 
@@ -360,11 +361,11 @@ def check(ctx):
         add(f"sizeof{i}", tree, params_of(tree), argvs, "sizeof")
     singles = single_operator_cases()
     for label, tree, params in singles:
-        argvs = pair_vectors(params, rng, 6 if thorough else 2)
+        argvs = pair_vectors(params, rng, 4 if thorough else 2)
         if not thorough:
             argvs = rng.sample(argvs, min(len(argvs), 6 if label.startswith("bin:") else 8))
         add(label, tree, params, argvs, "single")
-    n_random = 1500 if thorough else 160
+    n_random = 1200 if thorough else 160
     for i in range(n_random):
         np_ = rng.randint(1, 6)
         params = [rng.choice(L.TYPES) for _ in range(np_)]
@@ -382,8 +383,8 @@ def check(ctx):
         src = "\n".join(L.func_text(f"f{k + j}", "llong", c["params"], c["tree"]) for j, c in enumerate(chunk)) + "\n"
         funcs = [(f"f{k + j}", c["argvs"]) for j, c in enumerate(chunk)]
         # Spec.IR itself executes: the corpus unit, and a sample of the others
-        sir = k == 0 or rng.random() < (0.4 if thorough else 0.05)
-        jobs.append({"src": src, "funcs": funcs, "spec_ir": sir, "native": thorough and rng.random() < 0.25})
+        sir = k == 0 or rng.random() < (0.25 if thorough else 0.05)
+        jobs.append({"src": src, "funcs": funcs, "spec_ir": sir, "native": False, "want_native": thorough and rng.random() < 0.15})
     ltypes, ljobs, lreqs, lsub = layout_prepare(ctx)
     all_results = L.run_units(jobs + ljobs)
     results, lresults = all_results[:len(jobs)], all_results[len(jobs):]
@@ -481,12 +482,6 @@ def check(ctx):
                 bad_args.append(args)
             elif want_v != wrap_naive(c, args):
                 ctx.nontrivial((label if c["kind"] != "random" else text, tuple(args)))
-            if nat is not None and j < len(nat):
-                ctx.count("eval_native")
-                if nat[j] != want_v:
-                    ctx.count("native_differs")
-                    if ctx.counts["native_differs"] <= 5:
-                        ctx.note(f"native x86-64 run differs (back-end, C04/C05, not reported here): {text} args={args}: {nat[j]} vs {want_v}")
         if type_bad or bad_args:
             c["ast"] = obs["ast"]
             failing.append((i, bad_args, type_bad))
@@ -494,6 +489,42 @@ def check(ctx):
             ctx.sample({"c": text, "params": c["params"], "typed_ast": obs["ast"][:300], "spec_type": stype,
                         "args": c["argvs"][:2], "values": vals[:2]})
     phases["compare"] = round(time.time() - t0, 1)
+    t0 = time.time()
+
+    # ---- extra search (thorough): native x86-64 execution of ppci's own code for the DEFINED argument vectors.
+    #      A difference is a back-end matter (C04/C05: e.g. phis lowered before a conditional jump) and is only noted.
+    njobs, nindex = [], []
+    for job in jobs:
+        if not job.get("want_native"):
+            continue
+        funcs, idx = [], []
+        for name, argvs in job["funcs"]:
+            ci = int(name[1:])
+            if "error" in per_case.get(ci, {"error": 1}):
+                funcs = None
+                break
+            js = [j for j in range(len(argvs)) if replies[slots[ci] + 3 + 2 * j][3:] != "none"][:8]
+            funcs.append((name, []))
+            idx.append((ci, name, js))
+        if funcs:
+            njobs.append({"src": job["src"], "funcs": [(n, [cases[ci]["argvs"][j] for j in js]) for ci, n, js in idx],
+                          "spec_ir": False, "native": True, "no_ir2py": True})
+            nindex.append(idx)
+    if njobs:
+        for res, idx in zip(L.run_units(njobs), nindex):
+            if res["status"] != "ok":
+                continue
+            for ci, name, js in idx:
+                nat = res["funcs"].get(name, {}).get("native") or []
+                for j, got in zip(js, nat):
+                    ctx.count("eval_native")
+                    want_v = L.wrap("llong", int(replies[slots[ci] + 3 + 2 * j][3:]))
+                    if got != want_v:
+                        ctx.count("native_differs")
+                        if ctx.counts["native_differs"] <= 5:
+                            ctx.note(f"native x86-64 run differs (back-end, C04/C05, not reported under C01): "
+                                     f"{L.render_c(cases[ci]['tree'])} args={cases[ci]['argvs'][j]}: {got} vs {want_v}")
+    phases["native"] = round(time.time() - t0, 1)
     t0 = time.time()
 
     # ---- Spec.IR executes the real modules (subset) -----------------------------------------------
@@ -926,20 +957,24 @@ def validate_spec_with_gcc(ctx, cases, replies, slots):
     per = 150
     for k in range(0, len(chosen), per):
         chunk = chosen[k:k + per]
-        gc = [("llong", c["params"], c["tree"], c["argvs"][:6]) for _, c in chunk]
+        gc, keep = [], []
+        for i, c in chunk:
+            # only the argument vectors for which the specification defines a value are executed (an undefined
+            # division would trap and take the rest of the program's output with it)
+            js = [j for j in range(min(6, len(c["argvs"]))) if replies[slots[i] + 3 + 2 * j][3:] != "none"]
+            keep.append(js)
+            gc.append(("llong", c["params"], c["tree"], [c["argvs"][j] for j in js]))
         out, err = L.gcc_values(gc)
         if out is None:
             raise common.BrokenCheck("gcc rejected the generated program: " + err)
-        for (i, c), (tname, vals) in zip(chunk, out):
+        for (i, c), js, (tname, vals) in zip(chunk, keep, out):
             stype = replies[slots[i]][3:]
             ctx.count("eval_gcc_type")
             if tname != stype:
                 raise common.BrokenCheck(f"Spec.CExpr.typeOf disagrees with gcc on `{L.render_c(c['tree'])}` ({decl_text(c)}): "
                                          f"spec {stype}, gcc {tname}")
-            for j, gv in enumerate(vals):
+            for j, gv in zip(js, vals):
                 sv = replies[slots[i] + 3 + 2 * j][3:]
-                if sv == "none":
-                    continue
                 ctx.count("eval_gcc_value")
                 want = L.wrap("llong", int(sv))
                 if gv == "UB":
